@@ -20,6 +20,19 @@
 (* IdentityChecked = FALSE is the registry as first written (AddLink and      *)
 (* RemoveLink never look at which link an entry points to); TRUE is the       *)
 (* registry that refuses a second link and only removes its own entries.      *)
+(*                                                                          *)
+(* SetupDeadline: the router as it is closes no link in the middle of its     *)
+(* set-up from outside ("none").  A router that gives ACCEPTED connections a  *)
+(* deadline for the set-up does: a timer calls Close on the link - closing    *)
+(* flag won, RemoveLink finds nothing of this link, connection closed - and   *)
+(* it may do so when the set-up has read its last message already and goes on *)
+(* without any further I/O (DeadlineClose; the phases "checkedX", "labelledX" *)
+(* are "checked", "labelled" with the closing flag set).  "unguarded": the    *)
+(* set-up does not look at the flag again: it registers the link ("addedX"),  *)
+(* and as the flag is taken nobody will ever call RemoveLink for it - TLC     *)
+(* refutes Consistent.  "guarded": AddLink is not done for a link whose flag  *)
+(* is set (the set-up ends like a failed one) - Consistent holds.  Slow       *)
+(* set-ups through real listeners: stage T-slow of the driver.                *)
 (***************************************************************************)
 EXTENDS Integers, Sequences, FiniteSets, TLC, Json
 
@@ -29,6 +42,7 @@ CONSTANTS Routers,          \* router names
           Labels,           \* the label space (small, to force collisions)
           Derived,          \* Routers -> Labels: the label derived from a peer's address
           IdentityChecked,
+          SetupDeadline,    \* "none" | "guarded" | "unguarded" (see above; only meaningful with IdentityChecked)
           HandshakeMayFail  \* a handshake may also fail for reasons outside the registry (signature time stamps of
                             \* two handshakes between the same routers within a few milliseconds, I/O errors)
 
@@ -40,6 +54,7 @@ Other(k) == <<k[1], IF k[2] = "d" THEN "l" ELSE "d">>
 None == <<0, "none">>
 
 VARIABLES phase,    \* link -> "idle" | "checked" | "labelled" | "added" | "closing" | "removed"
+                    \*         | "checkedX" | "labelledX" | "addedX" (closing flag set by the set-up deadline)
           label,    \* link -> label or 0
           byPeer,   \* router -> peer -> link or None
           byLabel,  \* router -> label -> link or None
@@ -84,12 +99,12 @@ HandshakeFails(c) ==
 (* assignSwitchLabel: the derived label if nobody holds it, else any free one *)
 Free(r, x) == byLabel[r][x] = None
 AssignLabel(k) ==
-  /\ phase[k] = "checked"
+  /\ phase[k] \in {"checked", "checkedX"}
   /\ \E x \in Labels :
        /\ Free(Owner(k), x)
        /\ (x = Derived[Peer(k)] \/ ~Free(Owner(k), Derived[Peer(k)]))
        /\ label' = [label EXCEPT ![k] = x]
-  /\ phase' = [phase EXCEPT ![k] = "labelled"]
+  /\ phase' = [phase EXCEPT ![k] = IF phase[k] = "checked" THEN "labelled" ELSE "labelledX"]
   /\ act' = [name |-> "label", conn |-> k[1], side |-> k[2]]
   /\ UNCHANGED <<byPeer, byLabel, routes>>
 
@@ -113,7 +128,7 @@ AddLink(k) ==
    it does after its RemoveLink).  Nothing closes a link in the middle of its set-up except the set-up itself. *)
 CloseFlag(k, why) ==
   /\ phase[k] = "added"
-  /\ why = "remote" => phase[Other(k)] = "removed"
+  /\ why = "remote" => phase[Other(k)] \in {"removed", "checkedX", "labelledX", "addedX"}
   /\ phase' = [phase EXCEPT ![k] = "closing"]
   /\ act' = [name |-> "close", conn |-> k[1], side |-> k[2], why |-> why]
   /\ UNCHANGED <<label, byPeer, byLabel, routes>>
@@ -135,9 +150,36 @@ RemoveLink(k) ==
   /\ act' = [name |-> "remove", conn |-> k[1], side |-> k[2]]
   /\ UNCHANGED label
 
+(* The set-up deadline of an accepted connection fires when the set-up has read its last message: Close by the timer
+   - closing flag won; RemoveLink finds no entry of this link (the registry is identity-checked, the link not
+   registered); the connection is closed.  The set-up goes on: it needs no more I/O. *)
+DeadlineClose(k) ==
+  /\ SetupDeadline # "none" /\ IdentityChecked
+  /\ k[2] = "l"
+  /\ phase[k] \in {"checked", "labelled"}
+  /\ phase' = [phase EXCEPT ![k] = phase[k] \o "X"]
+  /\ act' = [name |-> "deadline", conn |-> k[1], side |-> k[2]]
+  /\ UNCHANGED <<label, byPeer, byLabel, routes>>
+(* AddLink of a link whose flag the deadline has set.  guarded: not done, the set-up ends as a failed one (its own
+   Close finds the flag taken; nothing of the link is registered).  unguarded: done like for any other link; where
+   the registry refuses it the set-up's Close is a no-op likewise; where it accepts, the link is registered and
+   closing - reader and writer fail on the closed connection and their Close finds the flag taken: final. *)
+AddClosedLink(k) ==
+  /\ phase[k] = "labelledX"
+  /\ IF SetupDeadline = "guarded" \/ Occupied(k)
+     THEN /\ phase' = [phase EXCEPT ![k] = "removed"]
+          /\ act' = [name |-> "addrefused", conn |-> k[1], side |-> k[2]]
+          /\ UNCHANGED <<byPeer, byLabel, routes>>
+     ELSE /\ byPeer' = [byPeer EXCEPT ![Owner(k)][Peer(k)] = k]
+          /\ byLabel' = [byLabel EXCEPT ![Owner(k)][label[k]] = k]
+          /\ routes' = [routes EXCEPT ![Owner(k)] = @ \cup {Peer(k)}]
+          /\ phase' = [phase EXCEPT ![k] = "addedX"]
+          /\ act' = [name |-> "add", conn |-> k[1], side |-> k[2]]
+  /\ UNCHANGED label
+
 Next ==
   \/ \E c \in Conns : Handshake(c) \/ Refused(c) \/ HandshakeFails(c)
-  \/ \E k \in Links : AssignLabel(k) \/ AddLink(k) \/ RemoveLink(k)
+  \/ \E k \in Links : AssignLabel(k) \/ AddLink(k) \/ RemoveLink(k) \/ DeadlineClose(k) \/ AddClosedLink(k)
   \/ \E k \in Links, why \in {"local", "remote"} : CloseFlag(k, why)
 Spec == Init /\ [][Next]_vars
 
@@ -145,7 +187,7 @@ Spec == Init /\ [][Next]_vars
 Live(k) == phase[k] = "added"
 (* nothing is in flight: no set-up or close half way, and no live link whose other end is gone *)
 Quiescent ==
-  /\ \A k \in Links : phase[k] \in {"idle", "added", "removed"}
+  /\ \A k \in Links : phase[k] \in {"idle", "added", "removed", "addedX"}
   /\ \A k \in Links : Live(k) => Live(Other(k))
 Findable == \A k \in Links : Live(k) => byPeer[Owner(k)][Peer(k)] = k /\ byLabel[Owner(k)][label[k]] = k
 NoGhosts == \A r \in Routers :
